@@ -1024,7 +1024,7 @@ def __setstate__(self, state):
             if antimask is None:
                 raise ValueError('missing antimask for decoding')
             new_values = np.empty(self._shape_ + self._item_,
-                                  dtype=Qube._dtype(self._default_))
+                                  dtype=self._values_.dtype)
             new_values[...] = self._default_
             new_values[antimask] = self._values_
             self._values_ = new_values
